@@ -5,6 +5,12 @@ sys.path.insert(0, os.path.dirname(os.path.abspath(__file__)))
 import plan
 
 TEXT = {
+ 'C01': ("Leaf level of the event parser, each against a grammar-level spec written from RFC 8259 / RFC 3629: read_u64/read_kind are Ok exactly when a non-empty digit run denotes a value that fits (u64 / <= 65535), return that value and never wrap; read_id/read_pubkey/read_sig accept exactly quote + 64/128 hex digits + quote and store hex_decode of them (HEX_INVERSE table contents included); next_code_point/encode_utf8 equal the RFC 3629 bit layout; json_unescape is total; is_safe_char equals the JSON safe-character set for all 2^32 arguments (Kani); parse_json_event is total, consumes <= input, writes the length field within the buffer and zero padding.",
+         "The entry-point contract against the jevent spec (soundness/completeness) is NOT yet stated: see coverage.not_decided."),
+ 'C02': ("json_escape returns exactly out + escape(input) (the NIP-01/JSON.stringify escape function) for every escapable input and never panics there; Event::from_parts returns exactly the canonical packing event_bytes(parts) independent of prior buffer contents; the JSON path zeroes the padding bytes; encode_utf8 is the RFC 3629 encoder.",
+         "as_json == event_json(view) and the re-parse lemma are not yet under contract: see coverage.not_decided."),
+ 'C08': ("The escaping used for the canonical serialisation is pinned character class by character class: json_escape == escape spec (\\b \\t \\n \\f \\r \\\" \\\\, other controls as \\u00xx lower-case, everything else verbatim) and is_safe_char == the safe set for all 2^32 code points.",
+         "verify/sign_new composition and the cryptographic primitives are not under contract: see coverage.not_decided."),
  'C03': ("Every parsing function of pocket-types reachable from the entry points (UTF-8 decode/encode, JSON string unescape, lexer, hex readers, tags/content readers, parse_json_event, parse_json_filter) is verified by Verus with NO precondition on input bytes or buffer length at the entry points: all index/slice bounds, arithmetic overflow, shifts, panic!/unwrap unreachability and termination obligations are discharged for all inputs and all loop iterations, plus consumed <= input length and structural postconditions (event length field within the buffer, padding zero).",
          "Stack depth of the recursive burn_* family is not modelled; 'successful result is well-formed' is proved for the length fields and bounds (wf_event/wf_tags of JSON results is stage 2, see not_decided in the evidence)."),
  'C04': ("EventStore::store_event/get_event_by_offset/new are verified against a trusted contract of mmap-append/File/AtomicUsize: an event is appended at a fresh aligned offset at or beyond the old end marker, bytes below the old end are never touched, the grow-and-retry loop terminates, the cached file length equals the mapping length, and an offset at which an event was stored reads back exactly its bytes; Store::store_event's contract lifts this to the store (events map only grows by the new event).", "mmap-append, the kernel and the file system are trusted by contract; reopen = persistence assumption."),
@@ -25,10 +31,7 @@ NA = {
  'C15': "address stability of an mremap'd mapping behind unsafe slice construction is not expressible as a contract over Rust values; the byte-content half is C04.",
 }
 PENDING = {
- 'C01': "functional JSON-faithfulness contracts (jevent spec) not yet built; totality/structure of the event parser is claimed under C03",
- 'C02': "as_json / round-trip lemmas not yet built; canonical padding and from_parts packing are proved under C03/C19",
  'C07': "functional filter-JSON contracts not yet built; totality of the filter parser is claimed under C03",
- 'C08': "canonical-serialisation contracts for verify/sign_new not yet built (json_escape == escape spec is proved in unit escape)",
  'C16': "marker codec / rebuild contracts not yet built",
 }
 
